@@ -19,6 +19,7 @@ let dec_of_n (x : n) : string = string_of_int (int_of_n x)
 let () =
   let snap = ref [] and yst = ref ybuf_empty and target = ref "" and prev_wseq = ref N0 in
   let pst = ref (pbuf_empty []) in
+  let snap_seq : n option ref = ref None in
   let cps : (string, nat) Hashtbl.t = Hashtbl.create 16 in
   let n = ref 0 and mism = ref 0 and progs = ref 0 in
   let counts = Hashtbl.create 64 in
@@ -27,7 +28,7 @@ let () =
   read_lines (fun line ->
     match split_tab line with
     | "PROG" :: _ :: tg :: sn :: _ ->
-        incr progs; target := tg; snap := parse_kvs sn; yst := ybuf_empty; pst := pbuf_empty []; Hashtbl.reset cps
+        incr progs; target := tg; snap := parse_kvs sn; yst := ybuf_empty; pst := pbuf_empty []; snap_seq := None; Hashtbl.reset cps
     | "O" :: pid :: idx :: kind :: rest ->
         let rec split acc l = match l with "=>" :: r -> (List.rev acc, r) | x :: r -> split (x :: acc) r | [] -> (List.rev acc, []) in
         let (args, res) = split [] rest in
@@ -84,6 +85,14 @@ let () =
               String.concat "," (List.map (fun ((k, f), v) ->
                 hex_of_bytes k ^ ":" ^ dec_of_n f ^ ":" ^ (match v with Some v -> hex_of_bytes v | None -> "nil")) l)
           | "sget" -> (match x_snap_get !st (bytes_of_hex (a 0)) with Some v -> "v " ^ hex_of_bytes v | None -> "nf")
+          | "snapnew" -> snap_seq := Some !yst.y_sseq; "ok"
+          | "snapget" ->
+              if !snap_seq <> Some !yst.y_sseq then "invalid" else
+              (match x_snap_get !st (bytes_of_hex (a 0)) with Some v -> "v " ^ hex_of_bytes v | None -> "nf")
+          | "snapscan" ->
+              if !snap_seq <> Some !yst.y_sseq then "invalid" else
+              if a 2 = "rev" then kvs_string (x_snap_iter_rev !st (bytes_of_hex (a 0)) (bytes_of_hex (a 1)))
+              else kvs_string (x_snap_iter !st (bytes_of_hex (a 0)) (bytes_of_hex (a 1)))
           | "sbget" ->
               let keys = List.map bytes_of_hex (String.split_on_char ',' (a 0)) in
               let (handed, r) = x_snap_batch_get !snap !st keys in
